@@ -79,7 +79,9 @@ func (m *manager) Close() (err error) {
 // Run all pollers.
 func (m *manager) Run() (err error) {
 	defer func() {
-		if err != nil {
+		// a growth that fails keeps the pollers that are running: their connections stay alive and
+		// Pick, which has no error to return, goes on handing them out
+		if err != nil && len(m.polls) == 0 {
 			_ = m.Close()
 		}
 	}()
